@@ -692,8 +692,11 @@ namespace _ST_PRIVATE
         while (sp < ep) {
             char32_t bigch = *sp++;
 
-            if (bigch > 0x10FFFF && validation == ST::check_validity)
-                return conversion_error_t::out_of_range;
+            if (bigch > 0x10FFFF) {
+                if (validation == ST::check_validity)
+                    return conversion_error_t::out_of_range;
+                bigch = '?';
+            }
 
             if (bigch >= 0x100) {
                 if (substitute_out_of_range)
